@@ -87,6 +87,7 @@ fixed("FX-order-A-fortran-layout", ["C01", "C02", "C09"], "8699557", "np.reshape
 fixed("FX-einsum-sublist-trailing-ellipsis", ["C01", "C05"], "8eaa00c", "einsum in sublist form with an operand whose sublist ends in Ellipsis and that is broadcast over leading ellipsis dimensions: the cotangent was summed over the last axes instead of the first ellipsis axes (wrong values / shape)", case("einsum", [A(3, 3), [0, Ellipsis], A(3, 3, 3), [0, Ellipsis], [0, Ellipsis]], argnum=0, tags=["sublist", "from_string"]))
 fixed("FX-untake-into-numpy-scalar", ["C11"], "24c5162", "a 0-d array that receives two dense cotangents and then an indexing cotangent: the running total had become a NumPy scalar and np.add.at failed (TypeError: first operand must be array)", {"kind": "mix", "x": enc(onp.array(1.5)), "terms": [{"t": "sparse", "idx": enc(None), "cls": "r0:newaxis"}, {"t": "dense", "f": "lin"}, {"t": "dense", "f": "lin"}], "order": [0, 1, 2], "assoc": "left", "via": "direct", "wseed": 4, "k": 1, "m": 2})
 fixed("FX-list-functions-real-piece-complex-gradient", ["C05"], "63be247", "concatenate / vstack / hstack / column_stack / append / array with a real differentiated piece next to complex pieces returned a complex gradient for the real piece", case("concatenate", [[A(3), C(3)]], argnum=0, form="listfun", tags=["kindmix"]))
+fixed("FX-deepcopy-of-tracer", ["C15"], "ce746a7", "copy.deepcopy of a traced value (or of a container holding traced values) duplicated the recorded graph: everything computed from the copy silently lost its derivative (reverse mode)", {"kind": "protocol", "prog": "deepcopy_and_original", "mode": "rev"})
 fixed("FX-where-jvp-broadcast", ["C05", "C02"], "423a953", "forward-mode np.where returned a tangent with the branch's shape/kind instead of the output's", case("where", [cc, A(3), A(2, 2, 3)], argnum=1), witness_mode="fwd")
 
 out = {"_comment": "Known findings: genuine defects of HIPS/autograd that are recorded rather than repaired (status open) and defects repaired by a 'fix:' commit (status fixed; fixed entries suppress nothing - their witnesses are re-run on every check and a failing one is an ordinary VIOLATION). `match` is a conjunction over fields of the case signature (lists = any of; {__re__}: regex; {__has__}: list membership); never a seed, hash or random value. Read-only at run time.", "findings": F}
